@@ -389,6 +389,10 @@ func runC01(c *Checker) {
 	// a message is reassembled from chunks before it is delivered: the chunking obligations (C14) are
 	// part of "exactly once, in order, intact" (its recorded known finding stays under C14)
 	importLayers(c, "C14")
+	// the sequence space both ends count in is the one the handshake agreed on: an endpoint that
+	// finishes the handshake with another N wraps its sequence numbers where the peer does not and
+	// the peer accepts a later packet as the next in order (C10, every completion adopts N)
+	importLayers(c, "C10")
 	w := c.w
 	rl := w.Func("(*gbn.GoBackNConn).receivePacketsForever")
 	sl := w.Func("(*gbn.GoBackNConn).sendPacketsForever")
@@ -997,6 +1001,7 @@ func runC09(c *Checker) {
 	importLayers(c, "C06")
 	w := c.w
 	ruleWIN5(c)
+	ruleChunkMinimal(c)
 	rg := newRanger(w)
 	inv := gbnInvariants(w, rg)
 	proveFieldInvariants(c, rg, inv, "INV")
